@@ -264,6 +264,16 @@ def compress (ae : Option AE) (h : Head) (ct : Option (String × String)) (b : R
     let r := response enc h b.size
     { head := r.1, mode := r.2, size := encSize r.2 b.size, evs := encBodyEvs r.2 b }
 
+/-- How `h1::encoder::MessageType::encode_headers` (actix-http/src/h1/encoder.rs:54) frames a
+response whose status is not 1xx / 204 / 304: (`transfer-encoding: chunked`?, the `Content-Length`
+value sent).  `hcl` is a `Content-Length` header set by the handler: it is copied only for a
+`Stream` body with chunking disabled (`skip_len`), otherwise the length comes from the body size. -/
+def h1Framing (size : BodySize) (noChunking : Bool) (hcl : Option String) : Bool × Option String :=
+  match size with
+  | .stream => if noChunking then (false, hcl) else (true, none)
+  | .sized n => (false, some (toString n))
+  | .none => (false, none)
+
 /-! ### a concrete codec for the line driver (and as the inhabitant of the codec law)
 
 "store" codec: a one-byte header is pending from the start (like gzip's header it comes out with
